@@ -14,7 +14,7 @@ WRAPF  := $(foreach w,$(WRAPS),-Wl,--wrap=$(w))
 
 # in-process properties / properties under the deterministic scheduler (DST)
 PURE   := C17 C19 C18 C16P
-DST    := C05 C15 C06 C08 C09 C04 C07 C11 C12 C13 C02 C10 C14 C03 C20 C16 C18Q C16H C11U C20P
+DST    := C05 C15 C06 C08 C09 C04 C07 C11 C12 C13 C02 C10 C14 C03 C20 C16 C18Q C16H C11U C20P C16S
 # DST + short-transfer injection on the stream syscalls
 DSTIO  := C01
 ALL    := $(PURE) $(DST) $(DSTIO)
